@@ -16,6 +16,7 @@ const vOrderL = "723700557733226221397318656304299424085711635937990760600195093
 
 // UnpackNegativeVartime(r, p): reads p[0:32]; ok = okN(p32), point = ptN(p32).
 func vc_UnpackNegativeVartime(r *ge25519.Ge25519, p []byte) bool {
+	_ = p[31] // the real function indexes p[31] and expands p[0:32]
 	b := p[:32]
 	vPut(r, vUFPt("ptN", b))
 	return vUFBool("okN", b)
